@@ -1,5 +1,5 @@
 INIT Init
 NEXT Next
 CONSTANTS MaxWorkers = 3  MaxIterC = 1
-INVARIANTS Accepted NoOverCount MutexOK
+INVARIANTS Mark StuckMark NoOverCount MutexOK
 CHECK_DEADLOCK FALSE
